@@ -463,7 +463,9 @@ def check_case(case, rec):
                 rec.check('reference-agreement', e <= 1e-8, resid=e, tol=1e-8, n=int(both.sum()),
                           key='reference-agreement' + (':conic-intersection-cancellation' if cancel else ''),
                           msg=f'surface {k}: library differs from the closed-form reference tracer by {e:.3e}')
-            only_lib = libf & ~reff & ~flagged
+            # a ray WITHOUT an intersection must not even have a finite recorded point (whatever its path / direction say)
+            no_hit = ~np.isfinite(t) & np.all(np.isfinite(pl0), axis=1) & np.all(np.isfinite(dl0), axis=1)
+            only_lib = (libf | (no_hit & posfin[k])) & ~reff & ~flagged
             keyn = None
             if only_lib.any():
                 x_, y_, z_ = fr.to_local_p(Pall[k][only_lib]).T
